@@ -13,6 +13,10 @@ var c02Books = []absBook{
 	{{"r1", []absIng{{"r2", 2}, {"fat", 1}}}, {"r2", []absIng{{"cal", 0.5}, {"fat", -1}}}},
 	{{"r1", []absIng{{"e", 2}, {"cal", 1}}}, {"r2", []absIng{{"e", -1}}}},
 	{{"r1", []absIng{{"cal", 2}, {"fat", -0.5}}}, {"r2", []absIng{{"cal", -1}, {"fat", 0.25}, {"r1", 0}}}},
+	// three levels, first ingredient a recipe taken once; visited bottom-up under reverse map order ...
+	{{"r1", []absIng{{"r2", 1}, {"cal", 2}}}, {"r2", []absIng{{"zz", 1}, {"fat", 1}, {"cal", 0.5}}}, {"zz", []absIng{{"cal", 3}, {"fat", 0.5}}}},
+	// ... and top-down
+	{{"r2", []absIng{{"r1", 1}, {"cal", 2}}}, {"r1", []absIng{{"aa", 1}, {"fat", 1}, {"cal", 0.5}}}, {"aa", []absIng{{"cal", 3}, {"fat", 0.5}}}},
 }
 
 var c02Foods = []string{"r1", "r2", "u", "e"}
